@@ -86,7 +86,7 @@ def register(cls):
     if getattr(cls, "lemma", False):
         _registry[f"lemma:{cls.__module__}.{cls.__name__}"] = inst
     for t in cls.targets:
-        key = t + ("#setter" if cls.setter else "")
+        key = t + ("#setter" if cls.setter else "") + (f"@{cls.variant}" if getattr(cls, "variant", None) else "")
         _registry[key] = inst
     return cls
 
